@@ -273,6 +273,22 @@ def rule_atomic(ctx):
                                 "later store of that entry fail (FileExistsError) until it is "
                                 "deleted by hand", opened=src_txt[:80])
                     continue
+            # (seed C15_11) the temporary belongs to one writer: its name is made, inside the writing function, from
+            # something no concurrent writer shares — process *and* thread identity, or a random token.  A name computed
+            # once per object (in the constructor) is shared by all threads using the object: one writer's replace then
+            # publishes the file another is still writing, and a death in that window leaves a partial/mixed entry
+            if not (isinstance(pexpr, ast.Call) and dotted(pexpr.func) in TEMPFILE_CTORS):
+                cn0 = fl.cfg.containing(call, f.module.parents)
+                dcalls = {d_[1].split(".")[-1] for d_ in fl.deps(pexpr, cn0.id, "may") if d_[0] == "call"}
+                rnd = dcalls & {"uuid4", "uuid1", "token_hex", "token_urlsafe", "mkstemp", "NamedTemporaryFile", "mktemp", "urandom"}
+                own = "getpid" in dcalls and (dcalls & {"get_ident", "get_native_id", "current_thread"})
+                bind_ = ctx.__dict__.get("_c15_bind", {}).get(f.key)
+                if not (rnd or own) and not (bind_ is not None and isinstance(pexpr, ast.Name) and pexpr.id in f.params):
+                    r.violation(ctx.key(f, "C15-ATOMIC", "own-temp"), where, f"the temporary `{C.unparse(pexpr, 50)}` is not named after the writer at the "
+                                "time of the write (no os.getpid() + thread identity, no random token, in this function): writers sharing the "
+                                "object share the file, one's replace publishes what another is still writing, and a death in that window "
+                                "leaves a partial or mixed entry under the final name", calls=sorted(dcalls))
+                    continue
             # temp: a replace onto a final path must post-dominate
             cn = fl.cfg.containing(call, f.module.parents)
             reps = []
